@@ -1568,11 +1568,123 @@ fn crash_enumerate(ctx: &mut Ctx, scn: &StoreScn, rel: &str, hist: Vec<OpRec>, l
                 return;
             }
         }
+        // C09, a lineage of two failures: the process is KILLED at k (nothing written is lost),
+        // restarts with sync=always, acknowledges a few writes and merges, and only then the power
+        // fails. What the restarted store was told is durable, and what had been acknowledged
+        // before the kill is still there (on a share of the points)
+        if power && images % 6 == 3 {
+            images += 1;
+            check_kill_then_power(ctx, scn, &files, &want, &inflight, k);
+            if !ctx.out.violations.is_empty() {
+                ctx.out.evaluations = images;
+                return;
+            }
+        }
     }
     ctx.out.evaluations = images.max(1);
     ctx.out.nontrivial = images > 1;
     *ctx.out.faults.entry(if power { "power_loss_image".to_string() } else { "process_kill_image".to_string() }).or_insert(0) += images;
     remove_dir(ctx, &rel);
+}
+
+fn check_kill_then_power(ctx: &mut Ctx, scn: &StoreScn, files: &[(String, u64, u64, usize)], want: &Model, inflight: &[(usize, Option<Vec<u8>>)], k: u64) {
+    let keys = &scn.keys;
+    ctx.sim.probe("kill_then_restart_then_power_loss");
+    // the directory a kill at k leaves: every written byte; what was synced at k stays known
+    let mut img = DirImage::new();
+    let mut synced: BTreeMap<String, u64> = BTreeMap::new();
+    fsim::with_fs(ctx.sim, |fs| {
+        for (name, len, syn, inc) in files {
+            img.insert(name.clone(), fs.incs[*inc].data[..*len as usize].to_vec());
+            synced.insert(name.clone(), *syn);
+        }
+    });
+    let irel = materialise(ctx, "k", &img, Some(&synced));
+    let mut cfg = scn.cfg.clone();
+    cfg.merge_always = false;
+    cfg.sync = SyncCfg::Always;
+    let s = match open_store(ctx, &irel, &cfg) {
+        Ok(s) => s,
+        Err(_) => {
+            // whether a kill image opens is C03's subject
+            ctx.join_others();
+            remove_dir(ctx, &irel);
+            return;
+        }
+    };
+    // acknowledged by the restarted store
+    let mut told = Model::new();
+    let mut deleted: BTreeSet<Vec<u8>> = BTreeSet::new();
+    for (j, key) in keys.iter().enumerate() {
+        if j % 3 == 0 {
+            let val = Val { tag: 930_000 + j as u32, len: 12 }.bytes();
+            if set(&s.h, key, val.clone()) == Ok(()) {
+                told.insert(key.clone(), val);
+            }
+        } else if j % 3 == 1 && j % 2 == 1 && del(&s.h, key).is_ok() {
+            deleted.insert(key.clone());
+        }
+    }
+    let _ = merge(&s.h);
+    drop(s);
+    ctx.join_others();
+    // the power fails: per file everything after its last completed fsync is gone
+    let after: Vec<(String, u64, u64, usize)> = fsim::with_fs(ctx.sim, |fs| fs.image_at(&irel, u64::MAX));
+    let mut img2 = DirImage::new();
+    fsim::with_fs(ctx.sim, |fs| {
+        for (name, _len, syn, inc) in &after {
+            img2.insert(name.clone(), fs.incs[*inc].data[..*syn as usize].to_vec());
+        }
+    });
+    let irel2 = materialise(ctx, "l", &img2, None);
+    let files_desc = img2.iter().map(|(n, b)| format!("{}:{}", n, b.len())).collect::<Vec<_>>().join(" ");
+    match open_store(ctx, &irel2, &cfg) {
+        Ok(s2) => {
+            for key in keys {
+                match get(&s2.h, key) {
+                    Ok(got) => {
+                        let ok = if let Some(v) = told.get(key) {
+                            got.as_ref() == Some(v)
+                        } else if deleted.contains(key) {
+                            got.is_none()
+                        } else {
+                            allowed(want, inflight, keys, key, &got)
+                        };
+                        if !ok {
+                            ctx.viol(
+                                "recovery-mismatch",
+                                format!(
+                                    "kill after I/O record {}, restart with sync=always, writes and a merge, then power loss: key {} reads {}; {} [files after the power loss: {}]",
+                                    k,
+                                    hex(key),
+                                    hexo(&got),
+                                    if let Some(v) = told.get(key) {
+                                        format!("the restarted store had acknowledged {}", hex(v))
+                                    } else if deleted.contains(key) {
+                                        "the restarted store had acknowledged its deletion".to_string()
+                                    } else {
+                                        format!("acknowledged before the kill: {}{}", hexo(&want.get(key).cloned()), if inflight.is_empty() { String::new() } else { format!(", in flight: {:?}", inflight.iter().map(|(ki, v)| (hex(&keys[*ki]), hexo(v))).collect::<Vec<_>>()) })
+                                    },
+                                    files_desc
+                                ),
+                                "",
+                            );
+                            break;
+                        }
+                    }
+                    Err(e) => {
+                        ctx.viol("recovery-read-failed", format!("kill after I/O record {}, restart, merge, power loss: get({}) returned {} [files: {}]", k, hex(key), e, files_desc), "");
+                        break;
+                    }
+                }
+            }
+            drop(s2);
+            ctx.join_others();
+        }
+        Err(e) => ctx.viol("recovery-open-failed", format!("kill after I/O record {}, restart, merge, power loss: the directory [{}] cannot be opened: {}", k, files_desc, e), ""),
+    }
+    remove_dir(ctx, &irel);
+    remove_dir(ctx, &irel2);
 }
 
 fn allowed(want: &Model, inflight: &[(usize, Option<Vec<u8>>)], keys: &[Vec<u8>], key: &[u8], got: &Option<Vec<u8>>) -> bool {
